@@ -1,6 +1,6 @@
 """Engine A support: abstract SU_vector objects with symbolic components, hooks that model the few
 external calls that occur in the algebra kernels, and extraction of the basis tables."""
-from interp import (Interp, Hooks, Obj, Region, Ptr, Cell, Opaque, Unsupported, Thrown, NULL, UNDEF, ITE, Cond, OutOfBounds,
+from interp import (ArrayView, AssertionAbort, Interp, Hooks, Obj, Region, Ptr, Cell, Opaque, Unsupported, Thrown, NULL, UNDEF, ITE, Cond, OutOfBounds,
                     wrap_int)
 from poly import Poly, CPoly, mat_zero
 from astdb import AnalysisBroken
@@ -69,7 +69,7 @@ class LiveCell(Cell):
         if c >= self.m.n2:
             raise Unsupported('write into the row padding of matrix %s' % self.m.name)
         old = self.m.entries.get((r, c)) or CPoly(Poly(), Poly())
-        p = v if isinstance(v, Poly) else Poly.const(v)
+        p = v if isinstance(v, (Poly, ITE)) else Poly.const(v)
         self.m.entries[(r, c)] = CPoly(p, old.im) if self.k % 2 == 0 else CPoly(old.re, p)
 
 
@@ -176,6 +176,19 @@ class KernelHooks(Hooks):
             return Opaque(name)
         if name.startswith(('std::lock_guard<', 'std::unique_lock<', 'std::scoped_lock<', 'std::mutex::', 'std::recursive_mutex::')):
             return None  # sequential interpretation: taking and releasing a lock has no effect on values
+        if name in ('gsl_matrix_complex_ptr', 'gsl_matrix_complex_const_ptr'):
+            # pointer to the (re,im) pair of one entry inside the matrix storage: reads and writes through it reach the matrix
+            m = matrix_of(it.eval(args[0]))
+            r, c = it.eval(args[1]), it.eval(args[2])
+            if not (isinstance(r, int) and isinstance(c, int)):
+                raise Unsupported('symbolic matrix index at %s' % it.loc(node))
+            if not (0 <= r < m.n1 and 0 <= c < m.n2):
+                raise AnalysisBroken('matrix index (%d,%d) out of range at %s' % (r, c, it.loc(node)))
+            o = Obj('gsl_complex')
+            o.field('dat').value = ArrayView(m.raw, 2 * (r * m.tda + c), [2])
+            reg = Region('%s(%d,%d)' % (m.name, r, c), 1, None, 'heap')
+            reg.cell(0).value = o
+            return Ptr(reg, 0)
         if name == 'gsl_matrix_complex_set':
             m = matrix_of(it.eval(args[0]))
             r, c = it.eval(args[1]), it.eval(args[2])
@@ -257,6 +270,34 @@ class KernelHooks(Hooks):
             for k, v in enumerate(out):
                 it.write(it.deref(it.ptr_add(a, k), node), v, node)
             return None
+        if base in ('std::begin', 'std::end', 'std::cbegin', 'std::cend') and len(args) == 1:
+            c = it.lval(args[0]) if (args[0].get('lv') or args[0].get('xv')) else it.eval(args[0])
+            v = c.value if isinstance(c, Cell) else c
+            if isinstance(v, Obj) and 'data' in v.fields and 'n' in v.fields:  # abstract std::vector
+                reg, cnt = v.fields['data'].value, v.fields['n'].value
+                return Ptr(reg, 0 if base.endswith('begin') else cnt)
+            if isinstance(v, Region):
+                return Ptr(v, 0 if base.endswith('begin') else v.size)
+            if isinstance(v, ArrayView):
+                inner = v.dims[1:] if len(v.dims) > 1 else None
+                w = 1
+                for x in (inner or []):
+                    w *= x
+                return Ptr(v.region, v.off + (0 if base.endswith('begin') else v.dims[0] * w), inner)
+            raise Unsupported('%s of %r at %s' % (base, v, it.loc(node)))
+        if base in ('memset', 'std::memset', '__builtin_memset') and len(args) == 3:
+            # the count is in BYTES: whole doubles inside it are set (to 0.0 for a zero byte pattern); a trailing part of
+            # a double is only partly overwritten, so that element keeps an indeterminate mixture -> left as it was
+            dst, byte, nbytes = it.eval(args[0]), it.eval(args[1]), it.eval(args[2])
+            if isinstance(nbytes, Poly) and nbytes.is_const():
+                nbytes = int(nbytes.const_value())
+            if not isinstance(nbytes, int) or not isinstance(dst, Ptr) or not isinstance(byte, int):
+                raise Unsupported('memset with symbolic arguments at %s' % it.loc(node))
+            if byte != 0:
+                raise Unsupported('memset with a non-zero byte over doubles at %s' % it.loc(node))
+            for k in range(nbytes // 8):
+                it.write(it.deref(it.ptr_add(dst, k), node), Poly.const(0), node)
+            return dst
         if base == 'std::fill_n':
             a, cnt, v = it.eval(args[0]), it.eval(args[1]), it.eval(args[2])
             if isinstance(v, Cell):
@@ -314,7 +355,7 @@ class KernelHooks(Hooks):
                 it.write(it.deref(it.ptr_add(o, k), node), it.read(it.deref(it.ptr_add(a, k), node), node), node)
             return it.ptr_add(o, n)
         if name == '__assert_fail':
-            raise Thrown(node, 'assertion failure', it.unit)
+            raise AssertionAbort(node, 'assertion failure', it.unit)
         if name == '__builtin_assume_aligned':
             self.assume_aligned = getattr(self, 'assume_aligned', 0) + 1
             return it.eval(args[0])
